@@ -47,6 +47,40 @@ def clone_node(obj, **kwargs):
     return new
 
 
+class cycle_guard(object):
+    """Evaluation is recursive and every recursion is cut where it meets
+    itself (EvalCtx.nodes, the _busy flags, a module being analysed). What is
+    computed above such a cut lacks the part that was cut away, and which part
+    that is depends on where the evaluation started: it answers the request
+    being served but is not the value of the object. fired counts the cuts; a
+    cache slot keeps a value for good only if no cut happened while it was
+    computed, and otherwise for the current request (epoch) only, passing the
+    mark on to whatever is computed from it."""
+    fired = 0
+    epoch = 0
+
+    @staticmethod
+    def cached(store, name, compute):
+        # type: (dict[str, t.Any], str, t.Callable[[], t.Any]) -> t.Any
+        try:
+            return store[name]
+        except KeyError:
+            pass
+        provisional = store.get('_provisional')
+        if provisional is not None:
+            hit = provisional.get(name)
+            if hit is not None and hit[0] == cycle_guard.epoch:
+                cycle_guard.fired += 1
+                return hit[1]
+        fired = cycle_guard.fired
+        value = compute()
+        if cycle_guard.fired == fired:
+            store[name] = value
+        else:
+            store.setdefault('_provisional', {})[name] = cycle_guard.epoch, value
+        return value
+
+
 class cached_property(object):  # type: ignore[no-redef]
     cached = True
 
@@ -57,8 +91,8 @@ class cached_property(object):  # type: ignore[no-redef]
     def __get__(self, obj, cls):  # type: ignore[no-untyped-def]
         if obj is None:
             return self
-        value = obj.__dict__[self.func.__name__] = self.func(obj)
-        return value
+        return cycle_guard.cached(
+            obj.__dict__, self.func.__name__, lambda: self.func(obj))
 
 
 def context_property(func):
@@ -69,14 +103,8 @@ def context_property(func):
             cv = self._ctx_values  # type: ignore[attr-defined]
         except AttributeError:
             cv = self._ctx_values = {}  # type: ignore[attr-defined]
-        else:
-            try:
-                return cv[func.__name__]  # type: ignore[no-any-return]
-            except KeyError:
-                pass
-
-        val = cv[func.__name__] = func(self, ctx, *args, **kwargs)
-        return val
+        return cycle_guard.cached(  # type: ignore[no-any-return]
+            cv, func.__name__, lambda: func(self, ctx, *args, **kwargs))
     return inner
 
 
